@@ -78,3 +78,17 @@ impl Clone for SDJWTJson {
     #[verifier::external_body]
     fn clone(&self) -> (r: Self) ensures r == *self { unimplemented!() }
 }
+// T7: #[derive(PartialEq)] on SDJWTSerializationFormat
+impl vstd::std_specs::cmp::PartialEqSpecImpl for SDJWTSerializationFormat {
+    open spec fn obeys_eq_spec() -> bool { true }
+    open spec fn eq_spec(&self, other: &Self) -> bool { *self == *other }
+}
+impl PartialEq for SDJWTSerializationFormat {
+    fn eq(&self, other: &Self) -> (r: bool) {
+        match (self, other) {
+            (SDJWTSerializationFormat::JSON, SDJWTSerializationFormat::JSON) => true,
+            (SDJWTSerializationFormat::Compact, SDJWTSerializationFormat::Compact) => true,
+            _ => false,
+        }
+    }
+}
